@@ -211,9 +211,12 @@ class Engine:
         cls = fi.cls.name if (fi is not None and fi.cls) else u.opts.get('cls')
         st.frames.append(Frame(fi, env, cls))
         st.clock = z3.Real('clock0')
+        st.pc.append(st.clock > 0)      # time.time() is seconds since the epoch
         st.ghost['names'] = {}
         # the ghost trace starts as an arbitrary list of earlier events
         # preconditions
+        st.old = st.snapshot()
+        st.entry_clock = st.clock
         st.spec += 1
         try:
             for c in u.of('let'):
@@ -225,7 +228,7 @@ class Engine:
             for c in u.of('requires'):
                 for a in c.args:
                     st.cur_line = 'contract:%d' % c.line
-                    st.assume(it.gtruth(a))
+                    st.assume(self.assumed(it, a))
             for c in u.of('assume'):
                 why = ast.literal_eval(c.args[0])
                 self.result.assumptions.add('assume: ' + why)
@@ -380,7 +383,7 @@ class Engine:
                         allowed.setdefault(nm, []).append(selfv.t)
         for name, arr in st.H.items():
             old = st.old.get(name, st.H0.get(name))
-            if old is None or arr.get_id() == old.get_id():
+            if old is None or arr.get_id() == old.get_id() or name.startswith('G:'):
                 continue
             tgt = allowed.get(name)
             if isinstance(tgt, str) and tgt == '*':
@@ -706,7 +709,7 @@ class Engine:
                     continue        # proved for the callee, not needed by callers
                 exprs = c.args[1:] if (len(c.args) >= 2 and isinstance(c.args[0], ast.Constant) and isinstance(c.args[0].value, str)) else c.args
                 for e in exprs:
-                    st.pc.append(z3.simplify(it.gtruth(e)))
+                    st.pc.append(z3.simplify(self.assumed(it, e)))
             st.side = []
             return result
         finally:
@@ -808,11 +811,18 @@ class Engine:
         # call-out assertions of the unit
         checks = u.of('callout_check')
         if checks:
-            st.frames.append(self.spec_frame(st, dict(st.locals)))
+            env = {}
+            for fr in st.frames:
+                env.update({k_: v_ for k_, v_ in fr.locals.items() if v_ is not None})
+            st.frames.append(self.spec_frame(st, env))
             st.frames[-1].locals['ev'] = ev
             st.spec += 1
             try:
                 for c in checks:
+                    if 'within' in c.kw:
+                        w = ast.literal_eval(c.kw['within'])
+                        if not any(fr.func is not None and fr.func.qual == w for fr in st.frames[:-1]):
+                            continue
                     label = ast.literal_eval(c.args[0])
                     props = ast.literal_eval(c.kw['props']) if 'props' in c.kw else None
                     for e in c.args[1:]:
@@ -975,12 +985,15 @@ class Engine:
             if kind == 'const':
                 raise EngineError('invariant given for a constant-trip loop (loop %d)' % od)
             st.locals[ivar] = it.from_idx(z3.IntVal(0))
+            if kind in ('list', 'enum') and isinstance(data, VList):
+                st.locals['_l%d' % od] = data
             if kind == 'range':
                 # the bounds of range() are evaluated once
                 data = VRange(data.lo, data.hi)
         entry_heap = st.snapshot()
         entry_locals = dict(st.locals)
         st.loop_entry.append((entry_heap, entry_locals))
+        pushed_head = False
         try:
             self.assert_invariants(it, invs, od, 'inv_init', node)
             decs = u.loop_clauses(qual, od, 'decreases')
@@ -994,6 +1007,7 @@ class Engine:
             self.assume_invariants(it, invs)
             st.loop_head = getattr(st, 'loop_head', [])
             st.loop_head.append((st.snapshot(), dict(st.locals), st.clock))
+            pushed_head = True
             # loop condition
             if is_for:
                 i = it.idx(st.locals[ivar])
@@ -1017,14 +1031,17 @@ class Engine:
                 elem = self.iter_elem(it, kind, data, i)
                 st.locals[ivar] = it.from_idx(z3.simplify(i + 1))
                 it.assign(node.target, elem)
+            bes = u.loop_clauses(qual, od, 'body_ensures')
             try:
                 it.exec_block(node.body)
             except BreakEx:
-                return          # continues after the loop with the state at the break
+                # the iteration is complete (its postcondition is due); execution continues after the loop
+                if bes:
+                    self.assert_invariants(it, bes, od, 'body_post', node)
+                return
             except ContinueEx:
                 pass
             self.assert_invariants(it, invs, od, 'inv_keep', node)
-            bes = u.loop_clauses(qual, od, 'body_ensures')
             if bes:
                 self.assert_invariants(it, bes, od, 'body_post', node)
             if decs:
@@ -1041,6 +1058,8 @@ class Engine:
             raise PathEnd()
         finally:
             st.loop_entry.pop()
+            if pushed_head:
+                st.loop_head.pop()
 
     def assert_invariants(self, it, invs, od, kind, node):
         st = it.st
@@ -1060,6 +1079,54 @@ class Engine:
             st.spec -= 1
             st.frames.pop()
 
+    def assumed(self, it, node):
+        """evaluate a clause that is going to be assumed (keys_forall facts get registered for eager instantiation)"""
+        st = it.st
+        st.assuming += 1
+        saved = st.conj_ctx
+        st.conj_ctx = True
+        try:
+            return it.gtruth(node)
+        finally:
+            st.assuming -= 1
+            st.conj_ctx = saved
+
+    def instantiate_kf(self, it, tb, key):
+        """eager instances of assumed keys_forall facts for the key of a table look-up (code mode)"""
+        st = it.st
+        kid = z3.simplify(key).get_id()
+        for reg in st.kf_assumed:
+            if reg['tb'].t.get_id() != tb.t.get_id() or kid in reg['done']:
+                continue
+            reg['done'].add(kid)
+            lam = reg['lam']
+            names = [a.arg for a in lam.args.args]
+            heap = reg['heap']
+            st.heap_stack.append(heap)
+            saved = (st.old, st.loop_entry, getattr(st, 'loop_head', []), st.ghost.get('names'))
+            st.old, st.loop_entry, st.loop_head = reg['old'], reg['entry'], reg['head']
+            st.ghost['names'] = reg['names']
+            st.spec += 1
+            try:
+                env = dict(reg['env'])
+                env[names[0]] = it.from_idx(key)
+                if len(names) > 1:
+                    env[names[1]] = mk_value(st, tb.val, z3.Select(table_val(st, tb), key))
+                st.frames.append(Frame(reg['func'], env, reg['cls']))
+                try:
+                    body = it.gtruth(lam.body)
+                    dom = z3.Select(table_dom(st, tb), key)
+                finally:
+                    st.frames.pop()
+            except EngineError:
+                continue
+            finally:
+                st.spec -= 1
+                st.heap_stack.pop()
+                st.old, st.loop_entry, st.loop_head = saved[0], saved[1], saved[2]
+                st.ghost['names'] = saved[3]
+            st.pc.append(z3.simplify(z3.Implies(dom, body)))
+
     def assume_invariants(self, it, invs):
         st = it.st
         st.frames.append(self.spec_frame(st, dict(st.locals)))
@@ -1069,7 +1136,7 @@ class Engine:
                 for e in rest:
                     if isinstance(e, ast.Constant) and isinstance(e.value, str):
                         continue
-                    st.assume(it.gtruth(e))
+                    st.assume(self.assumed(it, e))
             st.side = []
         finally:
             st.spec -= 1
@@ -1084,6 +1151,8 @@ class Engine:
             return z3.ArraySort(z3.IntSort(), self.ar.sort)
         if name in ('ER', 'EX'):
             return z3.ArraySort(z3.IntSort(), z3.IntSort())
+        if name == 'G:own':
+            return z3.IntSort()
         if name == 'DOM':
             return DOM_SORT
         if name == 'VAL':
@@ -1178,6 +1247,19 @@ class Engine:
                 st.clock = saved_clock
                 st.frames.pop()
                 st.heap_stack.pop()
+        if name in ('implies', 'iff', 'ite', 'forall', 'exists', 'count'):
+            saved_ctx = st.conj_ctx
+            st.conj_ctx = False
+            try:
+                return self.spec_special2(it, name, node)
+            finally:
+                st.conj_ctx = saved_ctx
+        if name in ('keys_forall', 'unchanged'):
+            return self.spec_special2(it, name, node)
+        raise EngineError('spec special ' + name)
+
+    def spec_special2(self, it, name, node):
+        st = it.st
         if name == 'count':
             return self.spec_count(it, node)
         if name == 'implies':
@@ -1242,13 +1324,21 @@ class Engine:
                 env[names[1]] = mk_value(st, tb.val, z3.Select(table_val(st, tb), kv))
                 if st.cur_heap() is st.H:
                     st.wf_array('VAL', 'ref2')
+            if st.assuming and st.conj_ctx and not st.bound_vars and not st.heap_stack:
+                st.kf_assumed.append({'tb': tb, 'lam': lam, 'env': dict(st.locals), 'heap': st.snapshot(),
+                                      'func': st.frames[-1].func, 'cls': st.frames[-1].cls, 'done': set(),
+                                      'old': st.old, 'entry': list(st.loop_entry), 'head': list(getattr(st, 'loop_head', [])),
+                                      'names': dict(st.ghost.get('names', {}))})
             st.frames.append(Frame(st.frames[-1].func, env, st.frames[-1].cls))
             st.bound_vars.append(kv)
+            saved_ctx = st.conj_ctx
+            st.conj_ctx = False
             try:
                 body = it.gtruth(lam.body)
             finally:
                 st.frames.pop()
                 st.bound_vars.pop()
+                st.conj_ctx = saved_ctx
             return VBool(z3.ForAll([kv], z3.Implies(z3.Select(table_dom(st, tb), kv), body)))
         if name == 'unchanged':
             conj = []
@@ -1338,6 +1428,7 @@ class LoopScan:
         self.everything = False
         self.seen = seen if seen is not None else set()
         self.depth = 0
+        self.assigned_from = {}
 
     def target(self, t):
         if isinstance(t, ast.Name):
@@ -1388,6 +1479,7 @@ class LoopScan:
             self.arrays.append((nm, ref))
 
     def key_arrays(self, k, ref):
+        self.arrays.append(('G:own', '*'))
         sch = self.eng.schema
         types = [v for (c, kk), v in sch.keys.items() if kk == k]
         sufs = set()
@@ -1398,17 +1490,46 @@ class LoopScan:
         self.arrays.append(('k:%s#has' % k, ref))
 
     def later_ref(self, node):
-        """('later', name) placeholders are resolved after the scan when the name is not assigned in the loop"""
+        """placeholders resolved after the scan: ('later', name) when the name is not assigned in the loop;
+        ('expr', node) for attribute chains rooted at such a name whose attributes are not stored in the loop"""
         v = self.try_eval(node)
         if v is not None:
             return ('later', v[1])
+        if isinstance(node, ast.Name) and self.depth == 0:
+            return ('later', node.id)
+        if self.depth == 0:
+            n = node
+            attrs = []
+            while isinstance(n, ast.Attribute):
+                attrs.append(n.attr)
+                n = n.value
+            if attrs and isinstance(n, ast.Name) and n.id in self.it.st.locals:
+                return ('expr', node, n.id, tuple(attrs))
         return '*'
+
+    @staticmethod
+    def allocates(e):
+        """the expression always yields a freshly allocated list"""
+        if isinstance(e, ast.Subscript) and isinstance(e.slice, ast.Slice):
+            return True
+        if isinstance(e, (ast.List, ast.ListComp)):
+            return True
+        if isinstance(e, ast.Call):
+            if isinstance(e.func, ast.Name) and e.func.id in ('list', 'bytes', 'bytearray'):
+                return True
+            if isinstance(e.func, ast.Attribute) and e.func.attr in ('copy', 'to_bytes', 'tolist'):
+                return True
+        if isinstance(e, ast.BinOp) and isinstance(e.op, ast.Mult) and (isinstance(e.left, ast.List) or isinstance(e.right, ast.List)):
+            return True
+        return False
 
     def stmt(self, s):
         for node in ast.walk(s):
             if isinstance(node, (ast.Assign,)):
                 for t in node.targets:
                     self.target(t)
+                    if isinstance(t, ast.Name) and self.depth == 0:
+                        self.assigned_from.setdefault(t.id, []).append(node.value)
             elif isinstance(node, (ast.AugAssign, ast.AnnAssign)):
                 self.target(node.target)
             elif isinstance(node, ast.For):
@@ -1546,12 +1667,37 @@ class LoopScan:
 
 def _resolve_later(scan, it):
     out = []
+    stored_attrs = set()
     for name, ref in scan.arrays:
+        if name.startswith('a:'):
+            stored_attrs.add(name[2:].split('#')[0].rsplit('.', 1)[1])
+    for name, ref in scan.arrays:
+        if isinstance(ref, tuple) and ref[0] == 'expr':
+            _, node, root, attrs = ref
+            ok = root not in scan.names and not any(scan.mangle(a) in stored_attrs or a in stored_attrs for a in attrs)
+            v = None
+            if ok:
+                st = it.st
+                st.spec += 1
+                try:
+                    v = it.eval(node)
+                except Exception:
+                    v = None
+                finally:
+                    st.spec -= 1
+            if isinstance(v, (VList, VRef, VTable)):
+                out.append((name, v.t))
+            else:
+                out.append((name, '*'))
+            continue
         if isinstance(ref, tuple) and ref[0] == 'later':
             nm = ref[1]
             v = it.st.locals.get(nm)
             if nm not in scan.names and isinstance(v, (VList, VRef, VTable)):
                 out.append((name, v.t))
+            elif nm in scan.names and scan.assigned_from.get(nm) and all(LoopScan.allocates(e) for e in scan.assigned_from[nm]) \
+                    and not any(isinstance(x, ast.For) and any(isinstance(t, ast.Name) and t.id == nm for t in ast.walk(x.target)) for x in ast.walk(scan.root)):
+                out.append((name, None))      # the name always refers to a list allocated in this iteration
             else:
                 out.append((name, '*'))
         else:
@@ -1565,6 +1711,7 @@ def _havoc_loop(self, it, node, od):
     st = it.st
     fi = st.frames[-1].func
     scan = LoopScan(self, it, fi)
+    scan.root = node
     for s in node.body:
         scan.stmt(s)
     if isinstance(node, ast.For):
